@@ -451,7 +451,10 @@ def grid_length(case):
 
 def grid(case):
     dmin, dmax = drange_quantity(case).to(UNITS['kpc']).value
-    return np.logspace(np.log10(dmin), np.log10(dmax), grid_length(case)[0])
+    g = np.logspace(np.log10(dmin), np.log10(dmax), grid_length(case)[0])
+    if len(g) > 1:          # the code pins the two ends of the grid to the requested distances
+        g[0], g[-1] = dmin, dmax
+    return g
 
 
 def synthesise(case, src, own, ks):
